@@ -300,7 +300,13 @@ def _run_genotype_default(case, res):
             self.is_long_read = False
 
     def cn_wrap(gene, profile, coverage, solver, debug=None):
-        out = orig_c(gene, profile, None, solver, debug)
+        try:
+            # (no evidence is handed over: where copy-number calling is unavailable none is needed)
+            out = orig_c(gene, profile, None, solver, debug)
+        except (AssertionError, AttributeError, TypeError) as e:
+            out = []  # the stage tried to use depth evidence: copy-number calling was not switched off
+            got.append((gene, profile, out, repr(e)))
+            raise Stop()
         got.append((gene, profile, out))
         raise Stop()
 
